@@ -5,6 +5,18 @@ here = os.path.dirname(os.path.dirname(os.path.abspath(__file__)))
 
 # property -> (technique, level text, level note, design ref)
 CLAIMED = {
+ "C01": ("argument/value provenance (escaped path, cleaned path, decode-once), must-pass-through (404/405/dispatch), bounds obligations and trie structural rules on SSA of the router plumbing",
+         "Static: decides the plumbing every dispatch depends on for all requests and specs; the trie's matching semantics (which pattern matches) is value-level and not decided.",
+         "Trusts go/types+go/ssa; path.Clean, url.PathUnescape, regexp as documented.", "DESIGN.md §2 C01"),
+ "C03": ("key provenance (canonical header lookup), nil-guard and totality rules, reflect-API typestate on default-derived values, constant-argument and overflow-pairing rules for strconv, error-discipline and per-location source tables, bounds obligations",
+         "Static: decides lookup-by-canonical-name, total type mapping, decimal 64-bit parsing with overflow pairing, that every error/validation failure reaches the 422 accumulator and that each location reads its own source; literal denotation and validation rules are not decided.",
+         "Trusts go/types+go/ssa; strconv, reflect, go-openapi/validate as documented.", "DESIGN.md §2 C03"),
+ "C05": ("bounds obligations with guard/induction discharge and stated caller preconditions (P-bounds), sort-before-arrange dominance, must-pass-through for base reservation, separator-set and backtracking-completeness rules on SSA of the denco trie",
+         "Static: decides the never-panics clause as bounds obligations (two real out-of-range reads are known findings) and the structural necessary conditions of order independence and complete backtracking; soundness/completeness of matching is not decided.",
+         "Trusts go/types+go/ssa; trie-shape invariants listed in the invariant table.", "DESIGN.md §2 C05"),
+ "C09": ("who-may-write over the VTA call graph from the request entry set, freshness of per-request objects, lock pairing, context-key/type agreement and cache short-circuit (must-pass-through) on SSA",
+         "Static: decides that request-reachable code writes no shared structure, that matched routes are fresh copies, and that every memoising accessor reads what it writes and recomputes only on a miss; general data-race freedom is not decided.",
+         "Trusts go/types+go/ssa and the VTA call graph (x/tools v0.29.0).", "DESIGN.md §2 C09"),
  "C02": ("must-pass-through (CFG edge-cut reachability), value provenance and loop-iteration analysis on SSA of the security interpreter (RouteAuthenticator(s).Authenticate, Context.Authorize, newSecureAPI, buildAuthenticators)",
          "Static: decides for all requirement structures and all per-scheme outcome vectors that admission, refusal and principal/scopes provenance have the required control-flow shape; does not decide user-supplied authenticators.",
          "Trusts go/types+go/ssa of x/tools v0.29.0; go-openapi/analysis returns the spec's requirement alternatives.", "DESIGN.md §2 C02"),
